@@ -205,6 +205,8 @@ func DeepCast(val Value, typ ast.Type, span errors.Span, allowCasts bool) (*Valu
 				span,
 			)
 		}
+
+		return &val, nil
 	case OptionValueKind:
 		if typ.Kind() != ast.OptionTypeKind {
 			return nil, NewRuntimeErr(
